@@ -53,7 +53,20 @@ def handle(line):
     return py_cmds.handle(cmd, args)
 
 
+class RequestTimeout(BaseException):
+    """one request ran longer than PI2_REQ_TIMEOUT seconds (default 300): the answer is `(timeout)` — a hang of the code under test
+    becomes a difference from the model instead of a hang of the check"""
+
+
+def _alarm(signum, frame):
+    raise RequestTimeout()
+
+
 def main():
+    import os
+    import signal
+    limit = float(os.environ.get('PI2_REQ_TIMEOUT', '300'))
+    signal.signal(signal.SIGALRM, _alarm)
     # answers are written one by one to the REAL stdout (a single write of more than 2 GiB is cut short by the kernel);
     # whatever the code under test prints goes to stderr
     real_out = sys.stdout
@@ -61,7 +74,13 @@ def main():
     for line in sys.stdin:
         line = line.rstrip('\n')
         try:
-            ans = handle(line)
+            signal.setitimer(signal.ITIMER_REAL, limit)
+            try:
+                ans = handle(line)
+            finally:
+                signal.setitimer(signal.ITIMER_REAL, 0)
+        except RequestTimeout:
+            ans = '(timeout)'
         except RecursionError:
             ans = 'fuel'
         except AssertionError as e:
